@@ -35,7 +35,7 @@ NOTES = {
               "oracle clause codec-parse-verdict, payloads with bytes after a complete message",
     "C19-m1": "first run: T1 only (no reconnect in the alphabet): `reconn` op",
     "C19-m2": "first run: T1/proof only (`idFetch` tie; the callmt scenarios - 2-4 threads, one call each - do not hit a window of a few "
-              "instructions): oracle-only `idstress` (6-8 threads x 4000-25000 concurrent calls on one channel, ids read from the wire)",
+              "instructions): oracle-only `idstress` (6-8 threads x 4000-6000 concurrent calls on one channel, ids read from the wire)",
     "C20-m2": "first run: SysSkel tie only (no scope ids in the alphabet): `ip6 <text> <port> <scope>`",
 }
 
